@@ -31,6 +31,7 @@ EXPLANATION = (
     " Round 4: no last-wins mapping built by a constructor from an operand's terms in PauliSum.__add__."
     ' Round 5: (D8) no functools cache keyed by an operator (tolerant ==, rounded hash); arithmetic methods do not branch on the truth value of their operator operand; __hash__ sees the coefficient only through round(...) while __eq__ is tolerant; is_constant looks at the factors only.'
     " Round 6: every term reaches its group before anything is compared with 0 -- no skip or filter on a term's own coefficient (D5); exits are keyed by content so the two views cannot pair different exits."
+    ' Round 7: every further exit of PauliTerm.__mul__ written over the operands denotes self * other (D3); star-unpacked groups in simplify (D5).'
 )
 RULE_TEXT = "instances = 6 ordered operator pairs x {operator, phase}, 3 key-collision checks, multiplication dataflow obligations, (class, dunder, return path) linear forms, 65 exponents, simplify obligations, equality/tolerance sites, purity per (method, parameter)"
 ASSUMPTIONS = [
@@ -558,7 +559,22 @@ def check_linear_forms(ctx):
         want = p_mul(p_atom("self"), p_atom(other))
         if got is None:
             continue
-        ctx.check(poly_eq(got, want), R3, f"{m.key}:shortcut:{norm(r)[:60]}", "the shortcut exit denotes self * other", f"PauliTerm.__mul__ has an exit returning {short(r)}, which denotes {show(got)}, not {show(want)}: the operand the shortcut treats as trivial (a constant term, say) still carries a coefficient, which is dropped", f"{m.module.relpath}:{r.lineno}")
+        # under `if self.is_constant:` the receiver *is* its coefficient (times the identity), likewise for the other operand
+        from ..astutil import parent_map as _pm
+
+        par_ = _pm(m.node)
+        guards_ = set()
+        x_ = r
+        while x_ in par_:
+            prev_, x_ = x_, par_[x_]
+            if isinstance(x_, ast.If) and any(prev_ is b or any(prev_ is y for y in ast.walk(b)) for b in x_.body):
+                guards_.add(norm(x_.test))
+        alts = [want]
+        if "self.is_constant" in guards_:
+            alts.append(p_mul(p_atom("self.coefficient"), p_atom(other)))
+        if f"{other}.is_constant" in guards_:
+            alts.append(p_mul(p_atom("self"), p_atom(f"{other}.coefficient")))
+        ctx.check(any(poly_eq(got, w_) for w_ in alts), R3, f"{m.key}:shortcut:{norm(r)[:60]}", "the shortcut exit denotes self * other", f"PauliTerm.__mul__ has an exit returning {short(r)}, which denotes {show(got)}, not {show(want)}: the operand the shortcut treats as trivial (a constant term, say) still carries a coefficient, which is dropped", f"{m.module.relpath}:{r.lineno}")
     # first two branches of PauliTerm.__mul__ with a sum: (PauliSum([self]) * other)
     sums = [r for r in returned_exprs(m.node) if "PauliSum" in norm(r)]
     for i, r in enumerate(sums):
